@@ -164,6 +164,32 @@ def run(ck, a):
               z3.And(eqs(o['act'], o['act_ref']), eqs(o['logp'], o['logp_ref']), eqs(o['raw'], o['raw_ref'])), timeout=120, meta=dict(n=n, kind='inf')))
     ck.add(Ob('inference: deterministic policy returns the mode/act=%d' % n, side + pre, eqs(o['dact'], o['dact_ref']), timeout=120, meta=dict(n=n, kind='inf')))
     ck.add(Ob('inference: observations are normalised with the supplied statistics/act=%d' % n, side + pre, eqs(o['logits'], o['logits_ref']), timeout=120, meta=dict(n=n, kind='inf')))
+    # dict observations (policy_obs_key selects the entry the policy sees): the SELECTED entry must be the normalised one
+    if n == 1:
+      dnets = ppo_networks.make_ppo_networks({'state': (obs_size,), 'aux': (3,)}, n, preprocess_observations_fn=rs.normalize, policy_hidden_layer_sizes=hid,
+                                             value_hidden_layer_sizes=hid, policy_obs_key='state', value_obs_key='state')
+      dleaves, dtdef = jax.tree.flatten(dnets.policy_network.init(jax.random.PRNGKey(0)))
+      dsym = [core.reals('dw%d' % i, tuple(l.shape)) for i, l in enumerate(dleaves)]
+      aux, amean, astd = core.reals('aux', (2, 3)), core.reals('amean', (3,)), core.reals('astd', (3,))
+      dinfer = ppo_networks.make_inference_fn(dnets)
+      def inf_d(obs, aux, mean, std, amean, astd, key, *ws):
+        pp = jax.tree.unflatten(dtdef, ws)
+        norm = rs.NestedMeanStd(mean={'state': mean, 'aux': amean}, std={'state': std, 'aux': astd})
+        ident = rs.NestedMeanStd(mean={'state': jp.zeros_like(mean), 'aux': jp.zeros_like(amean)}, std={'state': jp.ones_like(std), 'aux': jp.ones_like(astd)})
+        od = {'state': obs, 'aux': aux}
+        dact, _ = dinfer((norm, pp), deterministic=True)(od, key)
+        logits = dnets.policy_network.apply(norm, pp, od)
+        logits_ref = dnets.policy_network.apply(ident, pp, {'state': (obs - mean) / std, 'aux': (aux - amean) / astd})
+        return dict(dact=dact, dact_ref=dnets.parametric_action_distribution.mode(logits_ref), logits=logits, logits_ref=logits_ref)
+      ctxd = core.Ctx()
+      od_, cjd = core.run(ctxd, inf_d, obs, aux, mean, std, amean, astd, keyc, *dsym)
+      ck.traced('ppo.networks.make_inference_fn(make_ppo_networks(dict observations)) policy', cjd)
+      frd = Fr()
+      pred = [s_ > 0 for s_ in std] + [s_ > 0 for s_ in astd]
+      sided = [frd.formula(s_) for s_ in ctxd.side]
+      eqd = lambda u, v: z3.And([frd.eq(lift(x), lift(y)) for x, y in zip(flat(u), flat(v))])
+      ck.add(Ob('inference: dict observations are normalised with the supplied statistics (selected entry)/act=%d' % n, sided + pred,
+                z3.And(eqd(od_['logits'], od_['logits_ref']), eqd(od_['dact'], od_['dact_ref'])), timeout=120, meta=dict(n=n, kind='infdict')))
     # finiteness of the inference outputs under saturation
     ctx5 = core.Ctx()
     ctx5.saturate = True
@@ -250,6 +276,19 @@ def run(ck, a):
           bad = True
           log.append('inference fn at gain %g: raw_action %s vs %s, log_prob %s vs %s' % (gain, np.asarray(extra['raw_action']).tolist(), np.asarray(raw).tolist(),
                                                                                          np.asarray(extra['log_prob']).tolist(), np.asarray(lp).tolist()))
+    if kind == 'infdict':
+      dn = ppo_networks.make_ppo_networks({'state': (2,), 'aux': (3,)}, n, preprocess_observations_fn=rs.normalize, policy_hidden_layer_sizes=(3,), value_hidden_layer_sizes=(3,),
+                                          policy_obs_key='state', value_obs_key='state')
+      ppd = dn.policy_network.init(jax.random.PRNGKey(0))
+      ppd = jax.tree.map(lambda z: z + 0.3 if z.ndim == 1 else z, ppd)
+      od = {'state': jp.array([[0.3, -1.2], [2.0, 0.5]]), 'aux': jp.array([[0.1, 0.2, 0.3], [-1.0, 0.5, 2.0]])}
+      normd = rs.NestedMeanStd(mean={'state': jp.array([0.1, -0.2]), 'aux': jp.array([0.0, 1.0, -1.0])}, std={'state': jp.array([0.5, 2.0]), 'aux': jp.array([1.0, 3.0, 0.25])})
+      identd = rs.NestedMeanStd(mean={'state': jp.zeros(2), 'aux': jp.zeros(3)}, std={'state': jp.ones(2), 'aux': jp.ones(3)})
+      lg = dn.policy_network.apply(normd, ppd, od)
+      lg_ref = dn.policy_network.apply(identd, ppd, {k_: (od[k_] - normd.mean[k_]) / normd.std[k_] for k_ in od})
+      if not np.allclose(np.asarray(lg), np.asarray(lg_ref), rtol=1e-6, atol=1e-6):
+        bad = True
+        log.append('dict observations: policy logits %s, with the selected entry normalised by hand %s' % (np.asarray(lg).tolist(), np.asarray(lg_ref).tolist()))
     return bad, {'model': ob.model, 'log': log[:8], 'note': 'replay evaluates the real functions at the model point and along a ray of scaled points (float64 and float32)'}
   for p in ('log_prob', 'entropy', 'sample', 'mode', 'sampled', 'scale', 'fldj', 'saturation', 'inference'):
     ck.replayers[p] = replay
